@@ -116,6 +116,61 @@ def r20_target(repo, sink):
     sink.check(o.fields["_connected_inputs"] == {a: None, b: None}, "R20", "pinged:Output", pg,
                ok="every registered consumer starts with last request None (nothing is evicted before it pulled)",
                bad=f"Output.pinged leaves {o.fields['_connected_inputs']!r}")
+    # notification forwarding: buffer first, then notify downstream, same unchanged time
+    ad = repo.cls("Adapter")
+    su = repo.resolve(ad, "source_updated", "method")
+
+    class _N(FinamInterp):
+        def __init__(self, repo, order):
+            super().__init__(repo, order)
+            self.events = []
+
+        def call_hook(self, fv, args, kwargs, node, mod):
+            if isinstance(fv, Closure) and fv.self_obj is not None and getattr(fv.func, "name", "") == "_source_updated":
+                self.events.append(("buffer", args[0]))
+                return None
+            if isinstance(fv, Sym) and fv.op == "tgtcall":
+                self.events.append(("notify", fv.args[0].obj.label, args[0]))
+                return None
+            return super().call_hook(fv, args, kwargs, node, mod)
+
+        def get_attr(self, obj, attr, node, mod):
+            if isinstance(obj, Obj) and obj.label.startswith("tgt") and attr == "source_updated":
+                return Sym("tgtcall", Ref(obj))
+            return super().get_attr(obj, attr, node, mod)
+
+    rep = next((e for e in ads if e.kind == lek.BUFFER), ads[0])
+    od = Order()
+    tn = Sym("tn")
+    od.name(tn, "tn", 1)
+    it = _N(repo, od)
+    me = Obj(cls=rep.cls, label=rep.name)
+    me.fields.update(logger=Logger(label="logger"), _targets=[Obj(label="tgt1"), Obj(label="tgt2")], targets=[Obj(label="tgt1"), Obj(label="tgt2")], name="a")
+    try:
+        it.run(su, [tn], self_obj=me)
+        want = [("buffer", tn), ("notify", "tgt1", tn), ("notify", "tgt2", tn)]
+        sink.check(it.events == want, "R20", "notification-order", su,
+                   ok="a notification is handled by the adapter itself first and then passed on to all targets with the same time",
+                   bad=f"Adapter.source_updated performs {it.events!r}; expected {want!r}: a target that pulls inside the notification "
+                       "(push-based input, second buffering adapter) would not find the new publication yet")
+    except (Raised, Undecided) as exc:
+        sink.unknown("R20", "notification-order", su, f"outside vocabulary: {exc}")
+    it = _N(repo, Order())
+    try:
+        it.run(su, [Sym("nonsense")], self_obj=me)
+        sink.bad("R20", "notification-type", su, "a non-datetime notification is passed on")
+    except Raised as r:
+        sink.check(r.name == "ValueError" and not it.events, "R20", "notification-type", su, ok="non-datetime notifications are refused before any effect",
+                   bad=f"raises {r.name} after {it.events!r}")
+    except Undecided:
+        pass
+    outn = repo.resolve(repo.cls("Output"), "notify_targets", "method")
+    it = _N(repo, od)
+    o = Obj(cls=repo.cls("Output"), label="Output")
+    o.fields.update(logger=Logger(label="logger"), _targets=[Obj(label="tgt1"), Obj(label="tgt2")], _static=False, name="o")
+    it.run(outn, [tn], self_obj=o)
+    sink.check(it.events == [("notify", "tgt1", tn), ("notify", "tgt2", tn)], "R20", "notify-all-targets", outn,
+               ok="an output notifies every target with the publication time", bad=f"Output.notify_targets performs {it.events!r}")
     # Component.connect pings every input exactly in the INITIALIZED phase
     c = repo.method("Component", "connect")
     pings = [x for x in calls(c.node, "ping")]
@@ -621,3 +676,143 @@ class _CbRec(_Rec):
         if name == "np.may_share_memory":
             return False
         return super().ext_call(name, args, kwargs, node)
+
+
+# ========================================================================== R18s
+class _Arr(Obj):
+    """Array stand-in with a concrete (small) shape: shapes are configuration, not data."""
+
+
+def _arr(shape, label="data"):
+    o = _Arr(label=label)
+    size = 1
+    for s_ in shape:
+        size *= s_
+    o.fields.update(shape=tuple(shape), size=size)
+    return o
+
+
+class _ShapeInterp(FinamInterp):
+    def get_attr(self, obj, attr, node, mod):
+        if isinstance(obj, _Arr) and attr == "reshape":
+            return Sym("reshape_of", Ref(obj))
+        return super().get_attr(obj, attr, node, mod)
+
+    def call_hook(self, fv, args, kwargs, node, mod):
+        if isinstance(fv, Sym) and fv.op == "reshape_of":
+            src = fv.args[0].obj
+            shp = tuple(args[0]) if isinstance(args[0], (list, tuple)) else (args[0],)
+            n = _arr(shp, "reshaped")
+            n.fields["order"] = kwargs.get("order")
+            n.fields["from"] = src.fields["shape"]
+            return n
+        return super().call_hook(fv, args, kwargs, node, mod)
+
+    def ext_call(self, name, args, kwargs, node):
+        short = name.split(".")[-1]
+        if short == "expand_dims" and isinstance(args[0], _Arr):
+            n = _arr((1,) + tuple(args[0].fields["shape"]), "expanded")
+            return n
+        if short in ("array",) and isinstance(args[0], (tuple, list)):
+            from ..absbase import Vec
+            return Vec(args[0])
+        if short == "all" and isinstance(args[0], (bool, list, tuple)):
+            return bool(args[0]) if isinstance(args[0], bool) else all(args[0])
+        return super().ext_call(name, args, kwargs, node)
+
+    def sym_compare(self, op, left, right, node):
+        if isinstance(op, (ast.Eq, ast.NotEq)) and isinstance(left, tuple) and isinstance(right, tuple):
+            eq = tuple(left) == tuple(right)
+            return eq if isinstance(op, ast.Eq) else not eq
+        return super().sym_compare(op, left, right, node)
+
+    def compare(self, op, left, right, node):
+        from ..absbase import Vec
+        if isinstance(left, Vec) and isinstance(op, (ast.Eq, ast.NotEq)):
+            if isinstance(right, int):
+                return Vec((a == right) if isinstance(op, ast.Eq) else (a != right) for a in left)
+            if isinstance(right, Vec) and len(right) == len(left):
+                return Vec((a == b) if isinstance(op, ast.Eq) else (a != b) for a, b in zip(left, right))
+        if isinstance(op, (ast.Eq, ast.NotEq)) and isinstance(left, tuple) and isinstance(right, tuple):
+            eq = tuple(left) == tuple(right)
+            return eq if isinstance(op, ast.Eq) else not eq
+        return super().compare(op, left, right, node)
+
+    def get_item(self, c, k, node):
+        from ..absbase import Vec
+        if isinstance(c, Vec) and isinstance(k, Vec) and len(c) == len(k) and all(isinstance(x, bool) for x in k):
+            return Vec(a for a, keep in zip(c, k) if keep)
+        return super().get_item(c, k, node)
+
+
+def r18s_shape(repo, sink):
+    """prepare() normalises the shape: a leading time axis and the grid's data shape; flat
+    data is reshaped in the grid's memory order; anything else is refused."""
+    f = repo.func("src/finam/data/tools/core.py", "_check_input_shape")
+    gcls = repo.cls("Grid")
+    grid = Obj(cls=None, label="grid", markers={"Grid"})
+    grid.fields.update(data_shape=(3, 2), data_size=6, order=Sym("ORDER"))
+    info = Obj(label="info", fields={"grid": grid})
+
+    class _I(_ShapeInterp):
+        def isinstance(self, v, klass, node):
+            from ..loader import Class
+            if isinstance(klass, Class) and isinstance(v, Obj) and v.label == "grid":
+                return klass.name in ("Grid", "GridBase")
+            if isinstance(klass, Class) and isinstance(v, Obj) and v.label == "nogrid":
+                return klass.name in ("NoGrid", "GridBase")
+            return super().isinstance(v, klass, node)
+
+        def get_attr(self, obj, attr, node, mod):
+            if isinstance(obj, Obj) and obj.label in ("info", "grid", "nogrid") and attr in obj.fields:
+                return obj.fields[attr]
+            return super().get_attr(obj, attr, node, mod)
+
+    table = [
+        ((3, 2), 1, ("shape", (1, 3, 2))),
+        ((1, 3, 2), 1, ("shape", (1, 3, 2))),
+        ((2, 3, 2), 1, ("shape", (2, 3, 2))),
+        ((6,), 1, ("reshape", (1, 3, 2))),
+        ((12,), 2, ("reshape", (2, 3, 2))),
+        ((2, 3), 1, ("raise", "FinamDataError")),
+        ((5,), 1, ("raise", "FinamDataError")),
+        ((1, 2, 3), 1, ("raise", "FinamDataError")),
+        ((4, 2), 1, ("raise", "FinamDataError")),
+    ]
+    worst = None
+    for shape, te, want in table:
+        it = _I(repo)
+        try:
+            got = it.run(f, [_arr(shape), info, te])
+            res = ("shape", got.fields["shape"]) if got.label != "reshaped" else ("reshape", got.fields["shape"])
+            if got.label == "reshaped" and got.fields.get("order") != Sym("ORDER"):
+                res = ("reshape-without-grid-order", got.fields["shape"])
+        except Raised as r:
+            res = ("raise", r.name)
+        except Undecided as u:
+            raise AnalysisError(f"_check_input_shape: undecidable {u}") from u
+        if res != want:
+            worst = worst or f"data of shape {shape} ({te} time entr{'y' if te == 1 else 'ies'}) on a grid with data shape (3, 2): {res}, expected {want}"
+    sink.check(worst is None, "R18", "shape-table:grid", f,
+               ok=f"{len(table)} shapes: leading time axis added, flat data reshaped in the grid's order, mismatches refused", bad=worst or "")
+    # data without a grid
+    g = repo.func("src/finam/data/tools/core.py", "_check_input_shape_no_grid")
+    nog = Obj(label="nogrid")
+    nog.fields.update(dim=1, data_shape=(-1,))
+    info2 = Obj(label="info", fields={"grid": nog})
+    table2 = [((4,), 1, ("shape", (1, 4))), ((1, 4), 1, ("shape", (1, 4))), ((2, 4), 2, ("shape", (2, 4))), ((2, 4), 1, ("raise", "FinamDataError")),
+              ((1, 2, 2), 1, ("raise", "FinamDataError")), ((), 1, ("raise", "FinamDataError"))]
+    worst = None
+    for shape, te, want in table2:
+        it = _I(repo)
+        try:
+            got = it.run(g, [_arr(shape), info2, te])
+            res = ("shape", got.fields["shape"])
+        except Raised as r:
+            res = ("raise", r.name)
+        except (Undecided, AnalysisError) as exc:
+            sink.unknown("R18", "shape-table:no-grid", g, f"outside vocabulary: {exc}")
+            return
+        if res != want:
+            worst = worst or f"grid-less 1-D data of shape {shape}, {te} time entries: {res}, expected {want}"
+    sink.check(worst is None, "R18", "shape-table:no-grid", g, ok="grid-less data gets a leading time axis; rank and time-entry mismatches are refused", bad=worst or "")
